@@ -112,7 +112,7 @@ pub fn run(cx: &mut Cx)
 	}
 	cx.report.rule.push_str(" | diagnostics: every ill-formed statement of a catalogue (register names, arity, kind, unknown, range, undefined, duplicate, hex, file, occupied, \
 before any .addr) placed after random well-formed statements and separators (tabs, CRLF, multi-byte characters in comments, nested and multi-line block comments); \
-every recorded diagnostic must name main.asm and the line/column of the statement's first token");
+every recorded diagnostic must name main.asm and the line/column of the statement's first token; also at columns and lines beyond 2^16");
 	let n = if cx.thorough() {60_000} else {6_000};
 	for i in 0..n
 	{
@@ -191,6 +191,23 @@ every recorded diagnostic must name main.asm and the line/column of the statemen
 			cx.report.hit_n("diagnostic position cases of twice-deferred statements", 2);
 		}
 		if cx.report.oracle_failures_total >= 20 {break;}
+	}
+	// far positions: columns and lines beyond 2^16 (a long one-line file, a long comment, many empty lines)
+	{
+		let head = ".addr 0x100; .du8 7;";
+		let picks: Vec<&(&str, usize, bool)> = if cx.thorough() {BAD.iter().collect()} else {(0..16).map(|_| cx.rng.pick(BAD)).collect()};
+		for (k, (bad, boff, _)) in picks.into_iter().enumerate()
+		{
+			if bad.starts_with(".addr 0x100;") {continue;}
+			let far = [65_535usize, 65_536, 65_537, 70_001, 131_072, 200_003][k % 6] - 1;   // wanted column/line - 1
+			let fill = far - head.len();
+			let pad = match k % 3 {0 => " ".repeat(fill), 1 => format!("/*{}*/", "c".repeat(fill - 4)), _ => format!("/*{}*/\t", "\u{e9}".repeat(fill - 5))};
+			let text = format!("{head}{pad}{bad}");
+			check(cx, &text, head.len() + pad.len() + boff, &dir);
+			let text = format!("{head}{}{bad} NOP;", "\n".repeat(far));
+			check(cx, &text, head.len() + far + boff, &dir);
+			cx.report.hit_n("diagnostic position cases at columns / lines beyond 2^16", 2);
+		}
 	}
 	let _ = std::fs::remove_dir_all(&dir);
 }
